@@ -57,7 +57,7 @@ P = {
                 n=dict(quick=150, thorough=20000), recovery="off", inputs=dict(), corrupt="view"),
     "C17": dict(flags=["CHK_C17"], sections=["analyses"],
                 cat=dict(), profiles=["wild", "mix", "wild", "det", "conflict"],
-                n=dict(quick=250, thorough=9000), recovery="off", costs=["one", "rand3", "rand255"], inputs=dict(),
+                n=dict(quick=250, thorough=6000), recovery="off", costs=["one", "rand3", "rand255"], inputs=dict(),
                 budget_ms=100, corrupt="follow"),
 }
 
